@@ -496,6 +496,28 @@ fn stream_random(driver: &Driver, name: &str, seed: u64, from: u64, to: u64, cyc
     st
 }
 
+/// the model driver's decidable domain check (`CacheDoc.okRanks`, proved sound in Lean) against the
+/// generator's own notion of "no cycle among /Parent, /Pages links"
+fn stream_domain(driver: &Driver, seed: u64, n: u64) -> RStream {
+    let mut st = RStream::new("c12.domain", true);
+    let mut reqs = vec![];
+    let mut imps = vec![];
+    for case in 0..n {
+        let mut rng = Rng::derive(seed, "c12.domain", case);
+        let cyclic = rng.chance(1, 3);
+        let odd = rng.chance(1, 2);
+        let d = gen_doc(&mut rng, &GenOpts { cyclic, odd_parents: odd, objstms: true });
+        reqs.push(format!("c12.dom {} {}", if d.tolerant { 1 } else { 0 }, d.desc()));
+        imps.push(if d.acyclic() { "1".to_string() } else { "0".to_string() });
+        st.count(&format!("in-domain-of-the-theorems={}", d.acyclic()));
+    }
+    let resp = driver.ask(&reqs);
+    for ((rq, m), i) in reqs.iter().zip(resp.iter()).zip(imps.iter()) {
+        st.case(rq, m, i, true);
+    }
+    st
+}
+
 // ---------------------------------------------------------------------------------------------------
 // deterministic witnesses
 
@@ -685,6 +707,7 @@ pub fn run(driver: &Driver, seed: u64, thorough: bool, replay: Option<&serde_jso
     rep.streams.push(stream_random(driver, "c12.cyclic", seed, 0, if thorough { 4000 } else { 500 }, true, &mut cor));
     rep.oracles.push(or);
     rep.oracles.push(cor);
+    rep.streams.push(stream_domain(driver, seed, if thorough { 20_000 } else { 1500 }));
     rep.oracles.push(oracle_prefix(seed, if thorough { 10_000 } else { 1500 }));
     rep.oracles.push(oracle_corpus(seed, thorough, None));
     rep
